@@ -64,6 +64,11 @@ pub enum Step {
     InjectAll { extra: u8 },
     /// `compute()` — run to completion.
     Full,
+    /// `node_values_mut()` and and-ing `keep` into every present value: a caller that *resets* part
+    /// of the state between two runs (the function signature analysis edits node values between its
+    /// rounds). The solver re-queues every node; the result must be the least closed assignment
+    /// above the edited one.
+    LowerAll { keep: u8 },
 }
 
 #[derive(Clone, Debug, Serialize, Deserialize, PartialEq, Eq, Hash)]
@@ -269,6 +274,16 @@ pub fn run_scenario(sc: &Scenario) -> Result<RunStats, Violation> {
                     }
                     stats.injected = true;
                 }
+                Step::LowerAll { keep } => {
+                    for v in comp.node_values_mut() {
+                        *v &= keep;
+                    }
+                    // from here on the reference starts from the edited assignment
+                    for i in 0..n {
+                        start[i] = comp.get_node_value(NodeIndex::new(i)).copied();
+                    }
+                    stats.injected = true;
+                }
             }
             // clause 3: "stabilized" is reported only for assignments closed under all transfers
             if comp.has_stabilized() {
@@ -405,7 +420,8 @@ pub fn gen_scenario(seed: u64) -> Scenario {
         1 => steps.push(Step::Bounded(r.range(1, 4))),
         _ => {
             for _ in 0..r.range(1, 5) {
-                match r.below(6) {
+                match r.below(7) {
+                    6 => steps.push(Step::LowerAll { keep: (r.next() | r.next()) as u8 & mask }),
                     0 | 1 | 2 => steps.push(Step::Bounded(r.range(1, 3))),
                     3 => steps.push(Step::Inject { node: r.below(nodes as u64) as u8, extra: (r.next() & r.next()) as u8 & mask }),
                     4 => steps.push(Step::InjectAll { extra: (r.next() & r.next() & r.next()) as u8 & mask }),
